@@ -72,6 +72,30 @@ let handle kind a =
   | "st" ->
       (* the concrete level-0 compressor on an arbitrary-length input *)
       Some (hex_of_bytes (deflate_stored (bytes_of_hex a.(0))))
+  | "fx" ->
+      (* the fixed-Huffman literal compressor, and the reader model on a frame around its output *)
+      let x = bytes_of_hex a.(0) in
+      let cd = deflate_fixed_lit x in
+      let frame = frame_bytes cd (crc32 x) (n_of_int (List.length x)) in
+      Some (hex_of_bytes cd ^ "|" ^ fmt_read (reader_read_to_end inflate (frame @ eof_block)))
+  | "tk" | "dy" ->
+      (* LZ77 tokens coded as one fixed-Huffman block (tk) or as one dynamic-Huffman block with the
+         given code-length descriptions (dy: cll ll dl tokens); the reader model on a frame around it *)
+      let parse_tokens s = if s = "-" then [] else List.map (fun t ->
+        let rest = String.sub t 1 (String.length t - 1) in
+        match t.[0] with
+        | 'l' -> TLit (n_of_int (int_of_string rest))
+        | 'm' -> (match split_on ':' rest with
+                  | [l; d] -> TMatch (n_of_int (int_of_string l), n_of_int (int_of_string d))
+                  | _ -> failwith "token")
+        | _ -> failwith "token") (split_on ',' s) in
+      let nats s = List.map (fun x -> nat_of_int (int_of_string x)) (split_on ',' s) in
+      let ts = parse_tokens a.(if kind = "tk" then 0 else 3) in
+      let x = expand ts [] in
+      let cd = if kind = "tk" then deflate_fixed_tokens ts
+               else deflate_dynamic (nats a.(0)) (nats a.(1)) (nats a.(2)) ts in
+      let frame = frame_bytes cd (crc32 x) (n_of_int (List.length x)) in
+      Some (hex_of_bytes cd ^ "|" ^ fmt_read (reader_read_to_end inflate (frame @ eof_block)))
   | "inf" ->
       (* the inflater alone: cdata, limit *)
       (match inflate_raw (n_of_int (int_of_string a.(1))) (bytes_of_hex a.(0)) with
